@@ -20,6 +20,9 @@ CONSTANTS
   SubLates = {0, 5}
   AttLates = {0}
   MaxHeld = 1
+  MaxPasses = 1
+  MaxHeads = 1
+  HoldKinds = {"refresh"}
   Fams = {"bids"}
 INVARIANTS BidsBounded
 CHECK_DEADLOCK FALSE
